@@ -630,7 +630,7 @@ fn c02_indices(st: &State, tier: Tier) -> Vec<u64> {
     idxs
 }
 
-pub fn worker_c02(_space: &str, idx: u64) -> Value {
+pub fn worker_c02(space: &str, idx: u64) -> Value {
     STATE.with(|st| {
         let mut st = st.borrow_mut();
         if st.is_none() {
@@ -638,6 +638,19 @@ pub fn worker_c02(_space: &str, idx: u64) -> Value {
             let _ = corpus::catalog();
         }
         let st = st.as_ref().unwrap();
+        if space.starts_with("c02fresh") || space.starts_with("c02hist") {
+            // the same damaged project as the only conversion of a process / after the intact project in one process
+            let fi = st.offsets.partition_point(|o| *o <= idx) - 1;
+            let f = &st.files[fi];
+            if space.starts_with("c02hist") {
+                let _ = convert_outcome(f.fmt, &f.lines.join("\n"));
+            }
+            let mut v = convert_outcome(f.fmt, &f.damaged(idx - st.offsets[fi]));
+            if space.starts_with("c02fresh") {
+                v["exit_after"] = json!(true);
+            }
+            return v;
+        }
         if idx >= 1 << 40 {
             // baseline of file (idx - 2^40)
             let f = &st.files[(idx - (1 << 40)) as usize];
@@ -929,6 +942,44 @@ pub fn run_c02(ctx: &Ctx) -> i32 {
         }
         ctx.eval(moved_n);
     }
+    // (f) the verdict on a damaged project does not depend on what the process converted before: every "definition
+    // removed" variant of the smallest projects as the only conversion of a fresh process and straight after the
+    // intact project in one process
+    let mut hist_n = 0u64;
+    {
+        let mut sized: Vec<usize> = st.files.iter().enumerate().filter(|(_, f)| matches!(f.fmt, Fmt::Ctehexml)).map(|(i, _)| i).collect();
+        sized.sort_by_key(|i| st.files[*i].lines.len());
+        let mut hidx: Vec<u64> = vec![];
+        for fi in sized.into_iter().take(ctx.tier.pick(2, 12)) {
+            let f = &st.files[fi];
+            let n = f.lines.len() as u64;
+            for (b, (a, _)) in f.blocks.iter().enumerate() {
+                let ty = f.lines[*a].trim().rsplit('=').next().unwrap_or("").trim().to_string();
+                if DEF_BLOCKS.contains(&ty.as_str()) {
+                    hidx.push(st.offsets[fi] + 3 * n + b as u64);
+                }
+            }
+        }
+        let fresh: Mutex<BTreeMap<u64, String>> = Mutex::new(BTreeMap::new());
+        sup::supervise("c02fresh", &hidx, std::time::Duration::from_secs(60), &|idx, v| {
+            fresh.lock().unwrap().insert(idx, v["verdict"].as_str().unwrap_or("?").to_string());
+            true
+        });
+        let fresh = fresh.into_inner().unwrap();
+        sup::supervise("c02hist", &hidx, std::time::Duration::from_secs(60), &|idx, v| {
+            ctx.eval(1);
+            let after = v["verdict"].as_str().unwrap_or("?");
+            if let Some(alone) = fresh.get(&idx) {
+                if alone != after && (alone == "ok" || alone == "err") && (after == "ok" || after == "err") {
+                    let fi = st.offsets.partition_point(|o| *o <= idx) - 1;
+                    let (kind, descr) = st.files[fi].describe(idx - st.offsets[fi]);
+                    ctx.violation(&format!("verdict-depends-on-history:{}->{}", alone, after), &format!("{} ({}): '{}' as the only conversion of a process but '{}' when the intact project was converted before it in the same process", kind, descr["header"].as_str().unwrap_or(""), alone, after), json!({"case": descr, "index": idx, "history": ["intact project", "damaged project"]}));
+                }
+            }
+            true
+        });
+        hist_n += hidx.len() as u64;
+    }
     // (c) single broken references / removed definitions
     let idxs = c02_indices(&st, ctx.tier);
     let tally = Mutex::new((0u64, 0u64, 0u64));
@@ -998,7 +1049,7 @@ pub fn run_c02(ctx: &Ctx) -> i32 {
     if t.0 > 0 {
         ctx.outcome(&"still-ok");
     }
-    ctx.note("tally", json!({"project_files": nfiles, "converted": converted, "generated_projects": gen_n, "name_clash_variants": clash_n, "broken_reference_edits": idxs.len(), "data_level_edits": data_n, "moved_window_variants": moved_n, "rejected_with_error": t.1, "still_converted_to_identical_closed_model": t.0, "panicked": t.2}));
+    ctx.note("tally", json!({"project_files": nfiles, "converted": converted, "generated_projects": gen_n, "name_clash_variants": clash_n, "broken_reference_edits": idxs.len(), "data_level_edits": data_n, "history_pairs": hist_n, "moved_window_variants": moved_n, "rejected_with_error": t.1, "still_converted_to_identical_closed_model": t.0, "panicked": t.2}));
     if let Some(i) = idxs.get(idxs.len() / 2) {
         let fi = st.offsets.partition_point(|o| *o <= *i) - 1;
         ctx.sample(json!({"edit": st.files[fi].describe(*i - st.offsets[fi]).1}));
@@ -1006,7 +1057,7 @@ pub fn run_c02(ctx: &Ctx) -> i32 {
     ctx.sample(json!({"part": "closure", "file": "cubo.ctehexml", "oracle": "ids unique per collection, 17 reference kinds resolve, no nil id, bemodel::check empty"}));
     ctx.finish(
         "fault_enumeration",
-        "(a) every shipped project (12 .ctehexml with catalog, 56 legacy .cte with catalog + default general data) and generated projects: a successful conversion must be referentially closed; the same closure oracle on every numeric token -> 0 and -> -1 of the smallest project of each format (3 smallest in thorough) (ids unique per collection, 17 reference kinds resolve, no nil id) and silent under bemodel::check; (b') every ordered pair of definition kinds (day/week/year schedule, material, glazing, frame, gap, polygon): a referenced definition of one kind renamed, with its references, to the name of a definition of the other kind (cubo and one generated project) must convert to the same closed model or fail; (d) on the parsed project data of the smallest projects of each format and generated ones: every wall's space / construction / adjacent-space name, every window's wall / construction name redirected to an unknown name (windows also with their shading devices removed), every wall and space renamed under its referrers, every construction, used material / glazing / frame and every schedule removed - the conversion must fail or give a closed model; (e) a WINDOW block moved behind the first block of every other type and to the beginning of the document; (c) every project obtained by renaming one reference occurrence (attribute keys POLYGON, CONSTRUCTION, LAYERS, MATERIAL, GLASS-TYPE, NAME-FRAME, GAP, SPACE-/SYSTEM-CONDITIONS, NEXT-TO, DAY-/WEEK-SCHEDULES, *-SCHEDULE, *-TEMP-SCH, SPACE-TYPE) or removing one definition block (quick: the 3 smallest projects of each format; thorough: all): the outcome must be an error, or - when the broken name was not needed - a closed model with exactly the same census of elements and resolved links as the intact project; a model with missing/nil links, a silently dropped link, a panic or a timeout is a violation; non-trivial = conversion outcome differs from plain success",
+        "(a) every shipped project (12 .ctehexml with catalog, 56 legacy .cte with catalog + default general data) and generated projects: a successful conversion must be referentially closed; the same closure oracle on every numeric token -> 0 and -> -1 of the smallest project of each format (3 smallest in thorough) (ids unique per collection, 17 reference kinds resolve, no nil id) and silent under bemodel::check; (b') every ordered pair of definition kinds (day/week/year schedule, material, glazing, frame, gap, polygon): a referenced definition of one kind renamed, with its references, to the name of a definition of the other kind (cubo and one generated project) must convert to the same closed model or fail; (d) on the parsed project data of the smallest projects of each format and generated ones: every wall's space / construction / adjacent-space name, every window's wall / construction name redirected to an unknown name (windows also with their shading devices removed), every wall and space renamed under its referrers, every construction, used material / glazing / frame and every schedule removed - the conversion must fail or give a closed model; (e) a WINDOW block moved behind the first block of every other type and to the beginning of the document; (f) every 'definition removed' variant of the smallest projects converted as the only conversion of a fresh process and straight after the intact project in one process: same verdict; (c) every project obtained by renaming one reference occurrence (attribute keys POLYGON, CONSTRUCTION, LAYERS, MATERIAL, GLASS-TYPE, NAME-FRAME, GAP, SPACE-/SYSTEM-CONDITIONS, NEXT-TO, DAY-/WEEK-SCHEDULES, *-SCHEDULE, *-TEMP-SCH, SPACE-TYPE) or removing one definition block (quick: the 3 smallest projects of each format; thorough: all): the outcome must be an error, or - when the broken name was not needed - a closed model with exactly the same census of elements and resolved links as the intact project; a model with missing/nil links, a silently dropped link, a panic or a timeout is a violation; non-trivial = conversion outcome differs from plain success",
         true,
         json!({}),
     )
